@@ -40,6 +40,7 @@ type PageData struct {
 	Depth  int            `json:"depth"`
 	Href   string         `json:"href"`
 	Sty    string         `json:"sty"`
+	Cmap   map[string]bool `json:"cmap"`
 	hidden string
 }
 
@@ -114,11 +115,26 @@ func BuildData(d DataSpec) any {
 		}
 		its = append(its, map[string]any{"id": it.ID, "label": it.Label, "tags": tags, "price": it.Price, "inStock": it.InStock})
 	}
+	var n, flag, num, name any = pd.N, pd.Flag, pd.Num, pd.Name
+	switch d.Alt {
+	case 1: // numbers as strings, booleans as ints
+		n, flag, num = fmt.Sprint(pd.N), 1, "4.5"
+		if !pd.Flag {
+			flag = 0
+		}
+	case 2: // other numeric types, a number where a string is usual
+		n, num, name = int64(pd.N), 4, 77
+	}
+	cmap := map[string]any{}
+	for k, v := range pd.Cmap {
+		cmap[k] = v
+	}
 	return map[string]any{
-		"title": pd.Title, "name": pd.Name, "n": pd.N, "flag": pd.Flag, "off": pd.Off,
+		"cmap":  cmap,
+		"title": pd.Title, "name": name, "n": n, "flag": flag, "off": pd.Off, "num": num,
 		"items": its,
 		"user": map[string]any{"name": pd.User.Name, "email": pd.User.Email, "admin": pd.User.Admin,
 			"profile": map[string]any{"city": pd.User.Profile.City, "zip": pd.User.Profile.Zip}},
-		"html": pd.HTML, "cls": pd.Cls, "m": pd.M, "num": pd.Num, "empty": []any{}, "depth": pd.Depth, "href": pd.Href, "sty": pd.Sty,
+		"html": pd.HTML, "cls": pd.Cls, "m": pd.M, "empty": []any{}, "depth": pd.Depth, "href": pd.Href, "sty": pd.Sty,
 	}
 }
